@@ -26,3 +26,83 @@ def make_problem(dim, bounds=None, costs=None, evaluate=None, constraints=None, 
     for h in list(p.logger.handlers):
         p.logger.removeHandler(h)
     return p
+
+
+# ------------------------------------------------------------------------------------------------
+# order abstraction
+# ------------------------------------------------------------------------------------------------
+def monotone_map(rng, n, style=None):
+    """n strictly increasing floats with relative gaps >= 1e-6 (ranks 0..n-1 -> floats).
+
+    Styles cover negative values (maximised objectives), tiny and huge magnitudes, integers, and mixtures."""
+    style = style or rng.choice(["int", "neg", "unit", "tiny", "huge", "mixed", "offset"])
+    if style == "int":
+        start = rng.randint(-5, 5)
+        vals = [float(start + k * rng.choice([1, 1, 2, 3])) for k in range(n)]
+        vals = sorted(set(vals))
+        while len(vals) < n:
+            vals.append(vals[-1] + 1.0)
+    elif style == "neg":
+        vals = sorted(-rng.uniform(0.1, 100.0) for _ in range(n))
+    elif style == "unit":
+        vals = sorted(rng.uniform(0.0, 1.0) for _ in range(n))
+    elif style == "tiny":
+        vals = sorted(rng.uniform(1e-9, 1e-6) * rng.choice([-1, 1]) for _ in range(n))
+    elif style == "huge":
+        vals = sorted(rng.uniform(1e6, 1e12) * rng.choice([-1, 1]) for _ in range(n))
+    elif style == "offset":
+        base = rng.choice([1e3, -1e3, 12345.678])
+        vals = sorted(base + rng.uniform(0.0, 1.0) for _ in range(n))
+    else:
+        vals = sorted(rng.choice([-1, 1]) * 10 ** rng.uniform(-4, 6) for _ in range(n))
+    # enforce separation
+    out = []
+    for v in vals:
+        if out:
+            gap = 1e-5 * max(1.0, abs(out[-1]), abs(v))
+            if v - out[-1] < gap:
+                v = out[-1] + gap
+        out.append(v)
+    return out
+
+
+def dense_ranks(columns):
+    """list of equal-length float vectors -> per-coordinate dense ranks (ints); raises ValueError on near-ties."""
+    if not columns:
+        return []
+    m = len(columns[0])
+    ranks = [[0] * m for _ in columns]
+    for i in range(m):
+        vals = sorted({v[i] for v in columns})
+        for a, b in zip(vals, vals[1:]):
+            if b - a < 1e-7 * max(1.0, abs(a), abs(b)):
+                raise ValueError("near tie")
+        idx = {v: k for k, v in enumerate(vals)}
+        for k, v in enumerate(columns):
+            ranks[k][i] = idx[v[i]]
+    return ranks
+
+
+MARK_REPR = {
+    0: [False, 0, 0.0],
+    1: [True, 1, 1.0, 0.25],
+    -1: [-1, -1.0, -0.25],
+    2: [2, 2.5, 7.0],
+    -2: [-2, -2.5, -7.0],
+}
+
+
+def concrete_marker(rng, m, style):
+    """abstract marker -> concrete value; |.|-order and sign are preserved: style fixes the scale used for 1/2."""
+    reps = {0: [False, 0, 0.0][style % 3], 1: [True, 1, 0.25][style % 3], -1: [-1, -1, -0.25][style % 3],
+            2: [2, 2.5, 7.0][style % 3], -2: [-2, -2.5, -7.0][style % 3]}
+    return reps[m]
+
+
+def abstract_marker(x):
+    """concrete marker -> abstract integer preserving zero-ness, sign and the order of magnitudes used by the drivers."""
+    x = float(x)
+    if x == 0:
+        return 0
+    mag = 1 if abs(x) <= 1.0 else 2
+    return mag if x > 0 else -mag
